@@ -218,33 +218,55 @@ def completion_bounded(rep, mods, tier):
                 v = mod.validate(x)
             except Exception:      # noqa: B902
                 continue
-            for g, arg_e, pos_e, op, var in rels[:2]:
+            if m in ALTERNATIVES:
+                continue
+            # the relations that hold on this valid number (formats with several schemes: only the applicable ones)
+            app = []
+            for g, arg_e, pos_e, op, var in rels:
                 pos = indices(pos_e, var, len(v))
                 arg = indices(arg_e, var, len(v))
-                if not pos or not arg or op not in ('NotEq', 'Eq') or len(rels) > 2:
+                if not pos or not arg or op not in ('NotEq', 'Eq'):
                     continue
-                for _ in range(6 if tier == 'quick' else 60):
-                    chars = list(v)
-                    i = rnd.choice([a for a in arg if a not in pos] or arg)
-                    if chars[i].isdigit():
-                        chars[i] = rnd.choice('0123456789')
-                    elif chars[i].isalpha():
-                        chars[i] = rnd.choice('ABCDEFGHIJKLMNOPQRSTUVWXYZ')
+                try:
+                    ck = g(''.join(v[a] for a in arg))
+                except Exception:      # noqa: B902
+                    continue
+                if isinstance(ck, str) and len(ck) == len(pos) and all(v[p_] == c for p_, c in zip(pos, ck)):
+                    app.append((g, arg, pos))
+            if not app:
+                continue
+            allpos = {p_ for g, arg, pos in app for p_ in pos}
+            payload = sorted({a for g, arg, pos in app for a in arg} - allpos)
+            if not payload:
+                continue
+            for _ in range(6 if tier == 'quick' else 60):
+                chars = list(v)
+                i = rnd.choice(payload)
+                if chars[i].isdigit():
+                    chars[i] = rnd.choice('0123456789')
+                elif chars[i].isalpha():
+                    chars[i] = rnd.choice('ABCDEFGHIJKLMNOPQRSTUVWXYZ')
+                ok = True
+                for g, arg, pos in app:
                     try:
                         ck = g(''.join(chars[a] for a in arg))
                     except Exception:      # noqa: B902
-                        continue
+                        ok = False
+                        break
                     if not isinstance(ck, str) or len(ck) != len(pos):
-                        continue
+                        ok = False
+                        break
                     for p_, c in zip(pos, ck):
                         chars[p_] = c
-                    y = ''.join(chars)
-                    n += 1
-                    r = call_real(m + ':validate', [y])
-                    if r[0] == 'raise' and r[1] == 'InvalidChecksum':
-                        rep.refuted('C05/%s/completion' % m, m, 'completion', 'payload completed with %s() is rejected with a checksum error' % g.__name__,
-                                    dict(function=m + ':validate', input=y, real=list(r[:2])), True)
-                        break
+                if not ok:
+                    continue
+                y = ''.join(chars)
+                n += 1
+                r = call_real(m + ':validate', [y])
+                if r[0] == 'raise' and r[1] == 'InvalidChecksum':
+                    rep.refuted('C05/%s/completion' % m, m, 'completion', 'payload completed with the generated check character(s) is rejected with a checksum error',
+                                dict(function=m + ':validate', input=y, real=list(r[:2])), True, still_fails)
+                    break
     rep.add('C05/completion', 'bounded', 'eval', time.time() - t0, detail='%d mutated corpus payloads completed with the generated check character (bounded stand-in)' % n)
 
 
